@@ -461,8 +461,9 @@ def extra_C18(rng, tier, st, cov):
                 s = [e for e in spec if e[0] not in ('ops', 'idx')] + ([['idx', idx]] if idx else []) + ([['keepfile', final.encode()]] if keep else []) + [['ops', ops]]
                 return dump([1, t, 'run', s, []])
             base_env = dict(os.environ); base_env['VERIF_TMP'] = work
-            def penv(logf, kill=None, partial=None, fail=None):
+            def penv(logf, kill=None, partial=None, fail=None, short=False):
                 e = dict(base_env); e.update({'LD_PRELOAD': so, 'VERIF_FS_MATCH': final, 'VERIF_FS_LOG': logf})
+                if short: e['VERIF_FS_SHORT'] = '1' 
                 if kill: e['VERIF_FS_KILL_AT'] = str(kill)
                 if partial: e['VERIF_FS_PARTIAL'] = str(partial)
                 if fail: e['VERIF_FS_FAIL_AT'] = str(fail)
@@ -502,9 +503,9 @@ def extra_C18(rng, tier, st, cov):
                     lens = [o[2] for o in inv if o[0] == 'write']
                     rcm, mo = run_one(ml, dump([1, 'd', 'fsops', [final.encode(), lens], []]))
                     stats['skeleton_checks'] += 1
-                    if mo is None or mo[1] != inv:
+                    if not isinstance(mo, list) or len(mo) < 2 or mo[1] != inv:
                         out.append(viol('system calls of one callback invocation differ from the model (create/truncate <name>.tmp, write, close, rename): %s' %
-                                        [(o[0], o[1][-12:]) for o in inv][:8], [], {'spec': case([['run', calls], ['text']]), 'real': dump(inv)[:600], 'model': dump(mo[1])[:600] if mo else None}, tie=True))
+                                        [(o[0], o[1][-12:]) for o in inv][:8], [], {'spec': case([['run', calls], ['text']]), 'real': dump(inv)[:600], 'model': dump(mo[1])[:600] if isinstance(mo, list) and len(mo) > 1 else None}, tie=True))
                         break
             # kill enumeration
             nops = len(ops)
@@ -566,14 +567,16 @@ def extra_C18(rng, tier, st, cov):
                 c_ = cand.get(kind_, [])
                 if not c_: continue
                 fpos += c_ if tier == 'thorough' else sorted(set([c_[0], rng.choice(c_)] + ([c_[-1]] if kind_ == 'write' else [])))
-            for f in sorted(set(fpos)):
+            wpos = [f for f in sorted(set(fpos)) if ops[f - 1][0] == 'write' and len(ops[f - 1][2]) >= 2]
+            fplan = [(f, False) for f in sorted(set(fpos))] + [(f, True) for f in (wpos if tier == 'thorough' else wpos[:2])]
+            for f, short in fplan:
                 clean(); lf = os.path.join(work, 'flog')
                 if os.path.exists(lf): os.remove(lf)
-                what = 'the %s that is operation %d of %d fails' % (ops[f - 1][0], f, nops)
-                rc, resf = run_one(exe, case([['run', calls], ['text']]), penv(lf, fail=f))
+                what = ('the write that is operation %d of %d stores only half of its bytes and the disk is full from then on' % (f, nops)) if short else 'the %s that is operation %d of %d fails' % (ops[f - 1][0], f, nops)
+                rc, resf = run_one(exe, case([['run', calls], ['text']]), penv(lf, fail=f, short=short))
                 stats['faults'] = stats.get('faults', 0) + 1
                 donef = parse_fslog(lf)
-                replay = {'spec': case([['run', calls], ['text']]), 'fail_at': f, 'file': final}
+                replay = {'spec': case([['run', calls], ['text']]), 'fail_at': f, 'short_write': short, 'file': final}
                 tf = [x for x in (resf[1] if resf else []) if isinstance(x, list) and x[0] == 'text']
                 if rc != 0 or not tf or tf[0][1] != ref_final_text:
                     out.append(viol('%s: the run does not finish with the result of the undisturbed run (exit %s)' % (what, rc), [], replay)); continue
@@ -601,16 +604,16 @@ def extra_C18(rng, tier, st, cov):
                     lens = [o[2] for o in real if o[0] == 'write']
                     rcm, mo = run_one(ml, dump([1, 'd', 'fsops', [final.encode(), lens, how], []]))
                     stats['skeleton_checks'] += 1
-                    if mo is None or mo[1] != real:
+                    if not isinstance(mo, list) or len(mo) < 2 or mo[1] != real:
                         out.append(viol('%s: the system calls of that invocation differ from the model (%s: no operation on the final name)' % (what, how), [],
-                                        dict(replay, real=dump(real)[:600], model=dump(mo[1])[:600] if mo else None), tie=True))
+                                        dict(replay, real=dump(real)[:600], model=dump(mo[1])[:600] if isinstance(mo, list) and len(mo) > 1 else None), tie=True))
                         continue
                 later = list(range(f + 1, len([o for o in donef]) + 1))
                 ks2 = later if (tier == 'thorough' and len(later) <= 12) else sorted(set(rng.sample(later, min(len(later), 8 if tier == 'thorough' else 4)) + later[:2]))
                 for k in ks2:
                     clean(); lk = os.path.join(work, 'klog')
                     if os.path.exists(lk): os.remove(lk)
-                    rc, _ = run_one(exe, case([['run', calls], ['text']]), penv(lk, k, None, fail=f))
+                    rc, _ = run_one(exe, case([['run', calls], ['text']]), penv(lk, k, None, fail=f, short=short))
                     stats['kills_after_fault'] = stats.get('kills_after_fault', 0) + 1
                     done = parse_fslog(lk)
                     content = open(final, 'rb').read() if os.path.exists(final) else None
